@@ -17,18 +17,33 @@ against two context assignments, and what the receiver got is compared with
   * the layout-metamorphic oracle: all layouts and both seams agree (type-exact).
 
 Parts (quick / thorough)
-  A leaf x frame   every leaf (27 atoms x 11 filter chains, nested-template atoms unfiltered: 227) in every frame (33:
+  A leaf x frame   every leaf (27 atoms x 11 filter chains, nested-template atoms unfiltered: 227; + 34
+                   nested-template strings with a quote character at the edge of their content; + 7
+                   type-alphabet variables x 2 chains: 275) in every frame (33:
                    positional, kwarg, special / aggregate key, first / middle / last list entry,
                    dict key / value, spread operand at each level, depth-2 frames); main layouts +
                    one-hot layouts (thorough: also CRLF+tab one-hots)
+                     quote-edge strings: for each outer quote kind q, content = <start> body <end>,
+                       start / end in {nothing, the other quote kind bare, q backslash-escaped} (not both
+                       nothing), body in {`{{ x }}` (a list), `{% lorem 1 w %}`}, + the other quote kind
+                       in the middle only; they are text (several nodes), never the raw object, and keep
+                       their outer quote kind in every layout (swapping it would change the value)
+                     type alphabet: context values that are a Mapping but not a plain dict (ChainMap,
+                       mappingproxy, UserDict; OrderedDict as dict-subclass control) or an Iterable but not
+                       a list (tuple, a bare Iterable with nothing but __iter__, a dict-keys view), bare and
+                       with `|default:""`; in every frame, i.e. passed through untouched as a value and as
+                       operand of `...x` (Mapping -> keyword arguments incl. aggregate keys, any other
+                       Iterable -> positional arguments), `*x` (Iterable -> list entries) and `**x`
+                       (Mapping -> dict entries) at the first / last / only entry position
   B structure      all values with <= 4 / <= 5 nodes and depth <= 3 over 4 leaves, 2 keys, 1+1
                    spread variables (thorough: also <= 4 nodes over 6 leaves, 3 keys, 2+2 spread
                    variables); plus all values with <= 2 entries per container to depth 2 over 1 / 2
                    leaf fillers (thorough: also the 3-entry shapes: outer <= 2 x inner <= 3 and
                    outer 3 x inner <= 1)
-  C arguments      all 1- and 2-argument lists over 103 items (positional values of <= 2 nodes,
-                   10 keys incl. special / aggregate x 6 values, spreads of variables and literals,
-                   the `only` flag); thorough: all 3-argument lists over the 34 smallest items
+  C arguments      all 1- and 2-argument lists over 105 items (positional values of <= 2 nodes,
+                   10 keys incl. special / aggregate x 6 values, spreads of variables (list, dicts, tuple,
+                   string, ChainMap, bare Iterable) and literals, the `only` flag); thorough: all
+                   3-argument lists over the 36 smallest items
   D invalid        each documented-invalid production (spread inside a filter, `...` / `*` / `**`
                    with the wrong container, spread on a dict key / value position, `key=...x`,
                    `*x` / `**x` on the tag, aggregate + plain clash) at every container position of
@@ -41,9 +56,16 @@ Excluded / agnostic corners (the statement does not fix them):
     are nested-template strings; backslash escapes other than an escaped quote (`"a\\\\"` is a
     TemplateSyntaxError here, `a\\` in stock Django - not covered by the statement); strings holding
     both quote characters unescaped;
+  * a backslash-escaped quote inside a nested-template string (`"\\"{{ x }}\\""`): the docs say the text
+    between the quotes is a template but not whether the escape is undone first, so both readings are
+    accepted (backslash kept, as the tree does / bare quote, as in a plain string) - anything else is
+    a violation, and all layouts must agree on one reading;
   * dict keys with a filter argument (`{"k"|default:"x": 1}`, documented as unsupported);
   * spreading a non-iterable into a list / a non-mapping into a dict / a mapping with
-    non-string keys onto the tag; unhashable dict keys; keys starting with `:`;
+    non-string keys onto the tag; `*x` of a Mapping inside a list (Python would give the keys; the docs
+    only speak of spreading lists there - not generated); objects that iterate only through
+    `__getitem__` (not an `Iterable`); one-shot iterators / generators as context values (consumed by
+    the first rendering); unhashable dict keys; keys starting with `:`;
   * spread of a translation string (`*_("t")`, rejected by design: "Cannot combine translation
     and spread syntax") and a dict-spread operand with a filter argument (`{**d|default:x}`:
     the `:` reads as the key colon, pinned by test_spread_with_colon_interpreted_as_key);
@@ -146,10 +168,18 @@ def expected(args, ctxs):
     from django.template import Context
 
     ref = _setup()["ref"]
+    two_readings = ref.has_escaped_tpl(args)
     out = []
     for c in ctxs:
         try:
             a, k, f, alts = ref.arglist(args, Context(c))
+            if two_readings:  # escaped quote inside a nested-template string: kept verbatim or unescaped
+                ref.unescape_tpl = True
+                try:
+                    a2, k2, _, _ = ref.arglist(args, Context(c))
+                finally:
+                    ref.unescape_tpl = False
+                alts = alts + (("or", g.canon(a2), g.canon(k2)),)
             out.append(("ok", g.canon(a), g.canon(k), f, alts))
         except g.Invalid:
             out.append(("tse",))
@@ -170,10 +200,14 @@ def judge(exp, obs):
         return "documented-invalid form must raise TemplateSyntaxError, observed %s" % (_short(obs),)
     _, ea, ek, ef, alts = exp
     if obs[0] == "ok":
-        if g.matches(ea, obs[1]) and g.matches(ek, obs[2]) and ef == obs[3]:
-            return None
-        return "expected args=%s kwargs=%s flags=%s, observed args=%s kwargs=%s flags=%s" % (
-            _show(ea), _show(ek), sorted(ef), _show(obs[1]), _show(obs[2]), sorted(obs[3]))
+        readings = [(ea, ek)] + [(a[1], a[2]) for a in alts if a != "raises"]
+        for ra, rk in readings:
+            if g.matches(ra, obs[1]) and g.matches(rk, obs[2]) and ef == obs[3]:
+                return None
+        return "expected args=%s kwargs=%s flags=%s%s, observed args=%s kwargs=%s flags=%s" % (
+            _show(ea), _show(ek), sorted(ef),
+            "".join(" (or args=%s kwargs=%s)" % (_show(ra), _show(rk)) for ra, rk in readings[1:]),
+            _show(obs[1]), _show(obs[2]), sorted(obs[3]))
     if "raises" in alts and (obs[0] == "tse" or (obs[0] == "exc" and obs[1] == "TypeError")):
         return None
     return "expected args=%s kwargs=%s, observed %s" % (_show(ea), _show(ek), _short(obs))
@@ -213,7 +247,12 @@ def check_case(agg, part, args, layouts, ctxs, marker):
     agg.states += 1
     for e in exp:
         if e[0] != "skip":
-            agg.expected["ok-or-raises" if (e[0] == "ok" and e[4]) else e[0]] += 1
+            label = e[0]
+            if e[0] == "ok" and "raises" in e[4]:
+                label = "ok-or-raises"
+            elif e[0] == "ok" and e[4]:
+                label = "ok-either-escape-reading"
+            agg.expected[label] += 1
     canon_src = g.pr_args(args, g.CANON)
     seen = {}
     per_ctx_obs = [dict() for _ in ctxs]  # exact observation -> (layout, seam) of first occurrence
@@ -248,7 +287,7 @@ def check_case(agg, part, args, layouts, ctxs, marker):
     # metamorphic oracle: every layout / seam gave the same observation
     for ci, d in enumerate(per_ctx_obs):
         if len(d) > 1 and exp[ci][0] != "skip" and not reported:
-            if exp[ci][0] == "ok" and exp[ci][4]:
+            if exp[ci][0] == "ok" and "raises" in exp[ci][4]:
                 continue  # repeated keyword: either reading accepted per rendering
             (o1, (l1, s1, src1)), (o2, (l2, s2, src2)) = list(d.items())[:2]
             agg.fail(
@@ -397,7 +436,8 @@ def arg_items(tier, marker):
     for key in g.KW_KEYS + g.AGG_KEYS + ("attrs",):
         for v in vs1:
             items.append(("kw", key, v))
-    for v in (g.leaf(g.V("x")), g.leaf(g.V("d")), g.leaf(g.V("e")), g.leaf(g.V("y"), ("default", g.S(""))), g.leaf(g.V("s"))):
+    for v in (g.leaf(g.V("x")), g.leaf(g.V("d")), g.leaf(g.V("e")), g.leaf(g.V("y"), ("default", g.S(""))), g.leaf(g.V("s")),
+              g.leaf(g.V("cm")), g.leaf(g.V("it"))):  # + a mapping that is not a dict, an iterable that is not a sequence
         items.append(("spread", v))
     for v in vs2:
         if v[0] in ("list", "dict"):
@@ -545,7 +585,8 @@ def run(ctx):
             total.setdefault(k, par.Agg()).merge(a)
     names = {"A": "leaf_x_frame", "B": "structure", "C": "argument_lists", "D": "documented_invalid"}
     bounds = {
-        "A": {"leaves": len(g.leaves_full(marker)), "frames": len(g.frames()), "layouts": len(_layouts("main+onehot", ctx.tier)), "seams": 2, "contexts": 2},
+        "A": {"leaves": len(g.leaves_full(marker)), "frames": len(g.frames()), "layouts": len(_layouts("main+onehot", ctx.tier)), "seams": 2, "contexts": 2,
+              "quote_edge_nested_strings": len(g.tpl_quote_atoms(marker)), "spread_operand_types": list(g.TYPE_VARS)},
         "B": {"max_nodes": 5 if ctx.tier == "thorough" else 4, "max_depth": 3, "per_container": {"entries": 3 if ctx.tier == "thorough" else 2, "depth": 2},
               "layouts": len(_layouts("main")), "seams": 2, "contexts": 2},
         "C": {"max_arguments": 3 if ctx.tier == "thorough" else 2, "items": len(arg_items(ctx.tier, marker)), "layouts": len(_layouts("main"))},
